@@ -263,7 +263,7 @@ def run(chk):
     os.makedirs(work, exist_ok=True)
     for (case, idx, where, how, risky) in out["incidents"]:
         df = data_features(judge, case, idx + 1, work)
-        info = {"kinds": "hang" if how == "timeout" else "crash", "where": where, "detail": how,
+        info = {"kinds": "hang-or-crash", "where": where, "detail": how,
                 "line": case[1 + idx] if 1 + idx < len(case) else "?",
                 "integer_variables": df.get("ints", "0") != "0", "relaxation_region_bounded": df.get("relaxation_region_bounded"),
                 "ref": (df.get("ref") or "").split(":")[0], "stale_last_generator_slack_made_basic": risky}
